@@ -91,6 +91,14 @@ func cfgProjection(fsm *FSM, cand *cfgCandidates) map[string]interface{} {
 	}
 	out["originWhitelisted"] = orig
 	out["trustedBridge"] = br
+	// IRCServer.Banned is what ProcessMessage asks when a session's address changes
+	ban := map[string]string{}
+	if cand != nil {
+		for _, a := range cand.Addrs {
+			ban[a] = ircServer.Banned(a)
+		}
+	}
+	out["bannedFn"] = ban
 	snap, err := rigCanonicalState(ircServer)
 	if err != nil {
 		out["marshalErr"] = err.Error()
